@@ -18,7 +18,7 @@ fn rules(v: u64) -> RoomVersionRules {
 fn seed(server: &str) -> u8 {
     match server {
         "a.example" => 21,
-        "b.example" => 22,
+        "b.example:8448" => 22,
         _ => 23,
     }
 }
@@ -41,7 +41,7 @@ fn top_val(key: &str, bit: u64, shape: &str) -> Value {
         "type" => json!(shape_type(shape)),
         "room_id" => json!(format!("!r{bit}:a.example")),
         "sender" => json!("@u:a.example"),
-        "event_id" => json!("$ev:b.example"),
+        "event_id" => json!("$ev:b.example:8448"),
         "state_key" => json!(if bit == 0 { "@t:a.example" } else { "@t2:a.example" }),
         "depth" => json!(3 + bit),
         "origin_server_ts" => json!(100 + bit),
@@ -111,7 +111,7 @@ fn restrict(obj: &CanonicalJsonObject, keys: &[String]) -> serde_json::Map<Strin
 
 fn key_map() -> PublicKeyMap {
     let mut map: PublicKeyMap = BTreeMap::new();
-    for s in ["a.example", "b.example", "c.example"] {
+    for s in ["a.example", "b.example:8448", "c.example"] {
         let mut set: PublicKeySet = BTreeMap::new();
         set.insert("ed25519:1".into(), Base64::new(keypair(seed(s), "1").public_key().to_vec()));
         map.insert(s.to_owned(), set);
